@@ -1318,7 +1318,10 @@ func UnserializeScope(data any) (*ScopeSchema, error) {
 	if err != nil {
 		return nil, err
 	}
-	return s.(*ScopeSchema), nil
+	result := s.(*ScopeSchema)
+	// The references of a scope built from a description are not linked yet.
+	result.ApplySelf()
+	return result, nil
 }
 
 // UnserializeSchema unserializes an entire schema definition from raw data.
